@@ -190,7 +190,8 @@ fn syntax(rep: &mut Report, idx: usize, case: &Value) {
     let want = &case["want"];
     let got = guarded(|| enc::record(&ProguardRecord::try_parse(&line)));
     rep.check(idx, "try_parse", got, want);
-    if let Some(embed) = enc::from_opt_bytes(&case["embed"]) {
+    for embed in case["embed"].as_array().unwrap() {
+        let embed = enc::from_bytes(embed);
         let got = guarded(|| {
             let items: Vec<Value> = ProguardMapping::new(&embed).iter().map(|r| enc::record(&r)).collect();
             if items.len() == 3 {
